@@ -465,7 +465,7 @@ func r20_4(c *Ctx, rule string) {
 	c.R.Exact(rule, "Write calls in SendMsg", len(wr), 1)
 	for _, call := range wr {
 		c.ObErrChecked(rule+"/checked", call)
-		buf := call.Common().Args[0]
+		buf := eng.Resolve(call.Common().Args[0]) // (the frame may be built by a helper)
 		ms, isMS := buf.(*ssa.MakeSlice)
 		okLen := false
 		if isMS {
@@ -476,9 +476,15 @@ func r20_4(c *Ctx, rule string) {
 		c.R.Check(okLen, rule, c.siteName(call)+"/whole-frame", c.pos(call), "writes one buffer of size+4 bytes", "SendMsg does not write the frame as one buffer of Size()+4 bytes: a concurrent writer or a short write can interleave frames")
 		// marshal into b[4:]
 		okBody := false
-		for _, mc := range eng.Calls(sm) {
-			if strings.HasSuffix(c.P.CalleeName(mc), ").MarshalTo") {
-				if sl, isS := mc.Common().Args[0].(*ssa.Slice); isS && sl.X == buf {
+		var marshals []ssa.CallInstruction
+		eng.Instrs(sm, func(in ssa.Instruction) {
+			if ci, ok := in.(ssa.CallInstruction); ok && strings.HasSuffix(c.P.CalleeName(ci), ").MarshalTo") {
+				marshals = append(marshals, ci)
+			}
+		})
+		for _, mc := range marshals {
+			{
+				if sl, isS := mc.Common().Args[0].(*ssa.Slice); isS && eng.Resolve(sl.X) == buf {
 					if k, isK := eng.ConstInt(sl.Low); isK && k == 4 {
 						okBody = true
 					}
